@@ -6,6 +6,7 @@ for the 'safe' fallback path.
 """
 LOG = []          # (function name, x, y) per evaluation
 LAST_EXC = [None]
+DURING = [None]   # one-shot callback run INSIDE the next evaluation (used to snapshot a function while a call is in flight)
 
 
 class StubError(Exception):
@@ -28,6 +29,9 @@ def _value(x, y):
 
 def _body(name, x, y):
     LOG.append((name, x, y))
+    if DURING[0] is not None:
+        cb, DURING[0] = DURING[0], None
+        cb()
     if x == 7:
         e = StubError('stub failure for x=7')
         LAST_EXC[0] = e
